@@ -109,6 +109,9 @@ def run(chk, tier, replay=None):
         rng.shuffle(body)
         ops = ["ih", "sp", "in"] + body + ["eo", "gb", "gr", "di", "dh"]
         jobs.append({"kind": "legal", "side": "enc", "ops": ops})
+    # (3b) "submit everything, then collect": N pictures back to back without fetching a packet, then EOS, then drain
+    for n in ([80, 240, 600] if quick else [80, 240, 600, 1000, 3000, 4900, 5100]):
+        jobs.append({"kind": "legal", "side": "enc", "ops": ["ih", "sq", "in", "pm%d" % n, "eo", "gb", "di", "dh"], "burst": n})
     for i in range(6 if quick else 60):
         body = [rng.choice(["fr", "gp", "fr"]) for _ in range(rng.randrange(0, 8))]
         jobs.append({"kind": "legal", "side": "dec", "ops": ["ih", "sp", "in"] + body + ["di", "dh"]})
@@ -119,9 +122,10 @@ def run(chk, tier, replay=None):
         i, job = ij
         prefix = os.path.join(chk.dir, "q%04d" % i)
         env = sanlog.env_for(flavour, prefix)
-        r = core.run([exe, job["side"], (ivf + ".ivf") if job["side"] == "dec" else "-"] + job["ops"], timeout=60, env=env)
+        to = 60 + int(job.get("burst", 0)) // 4  # the ASan build encodes a few hundred 64x64 pictures per second
+        r = core.run([exe, job["side"], (ivf + ".ivf") if job["side"] == "dec" else "-"] + job["ops"], timeout=to, env=env)
         if r.timed_out:
-            r2 = core.run([exe, job["side"], (ivf + ".ivf") if job["side"] == "dec" else "-"] + job["ops"], timeout=150, env=env)
+            r2 = core.run([exe, job["side"], (ivf + ".ivf") if job["side"] == "dec" else "-"] + job["ops"], timeout=150 + 2 * to, env=env)
             if not r2.timed_out:
                 r = r2
         seq, done, infos = parse(r.out)
@@ -194,7 +198,13 @@ def run(chk, tier, replay=None):
         else:
             if pending:
                 i, op = pending[0]
-                if op != "gb":
+                if op.startswith("pm") and r.timed_out:
+                    sent = infos.get(i, 0)
+                    v.append(("C14|enc|blocks|send_picture while nothing is fetched|%s"
+                              % ("more-than-5000-pending" if sent >= 4990 else "at-most-5000-pending"),
+                              "sequence %s: svt_av1_enc_send_picture never returned after about %d pictures had been "
+                              "submitted without a get_packet call in between" % (" ".join(ops), sent)))
+                elif op != "gb":
                     if r.timed_out:
                         v.append(("C14|%s|blocks|%s in a legal sequence" % (side, op), "legal sequence %s: %s (call %d) never returned"
                                   % (" ".join(ops), op, i)))
